@@ -123,6 +123,8 @@ type Interp struct {
 	digitCache map[*Term]StrV
 	digitList  []*Term
 	lastNow    *Term
+	firstNow   *Term
+	clockWindow *Term
 	pid        *Term
 
 	// work sharing: the coordinator cuts paths after frontierDepth forking
@@ -188,6 +190,8 @@ func (in *Interp) resetPath() {
 	in.digitCache = map[*Term]StrV{}
 	in.digitList = nil
 	in.lastNow = nil
+	in.firstNow = nil
+	in.clockWindow = nil
 	in.pid = nil
 }
 
